@@ -121,7 +121,10 @@ static void sample_options(G& g, Plan& p, int level) {
   if (maybe(0.10)) set_env(p, "ABANDONED_PAGE_PURGE", g.pick({0, 1}));
   if (maybe(0.12)) set_env(p, "TARGET_SEGMENTS_PER_THREAD", g.pick({0, 2, 3, 4}));
   if (maybe(0.08)) set_env(p, "MAX_SEGMENT_RECLAIM", g.pick({0, 10, 100}));
-  if (maybe(0.10)) set_env(p, "ALLOW_LARGE_OS_PAGES", g.pick({0, 2}));
+  if (maybe(0.10)) set_env(p, "ALLOW_LARGE_OS_PAGES", g.pick({0, 1, 2}));
+  if (maybe(0.08)) { c.hugetlb = g.pick({1, 2, 2}); if (g.chance(0.7)) set_env(p, "ALLOW_LARGE_OS_PAGES", 1); }       // explicit huge OS pages exist: pinned memory
+  if (level >= 2 && maybe(0.04)) { c.hugetlb = 2; set_env(p, "RESERVE_HUGE_OS_PAGES", g.pick({1, 2})); }
+  if (level >= 2 && maybe(0.04)) set_env(p, "RESERVE_OS_MEMORY", g.pick<std::string>({"131072", "262144"}));    // KiB: an arena reserved at start-up
   if (maybe(0.15)) set_env(p, "VISIT_ABANDONED", g.pick({0, 1}));
   if (maybe(0.05)) set_env(p, "GENERIC_COLLECT", g.pick({50, 500, 10000}));
 }
@@ -1344,7 +1347,11 @@ static void fam_c14_arena(G& g, Plan& p) {
     p.cfg.strategy = ST_TARGETED; p.cfg.hot_p = g.pick({0.3, 0.7}); p.cfg.switch_p = 0.0;
     p.cfg.hot_funcs = {"os_call", "_mi_arena_free", "mi_arena_schedule_purge", "mi_arena_purge", "mi_arena_try_purge", "_mi_bitmap_unclaim_across", "mi_arena_try_alloc_at", "_mi_bitmap_try_claim", "mi_arenas_try_purge"};
   }
-  P0.ops.push_back(mk(OP_reserve_arena, 0, B * 32 * MiB, g.below(2), 1 /*exclusive*/));
+  {
+    uint64_t d = 0;
+    if (g.chance(0.15)) { d = g.chance(0.5) ? 1 : (2 | (g.chance(0.3) ? 4 : 0) | (g.chance(0.3) ? 8 : 0)); if (g.chance(0.85)) p.cfg.hugetlb = 2; if (d == 1) set_env(p, "ALLOW_LARGE_OS_PAGES", 1); }   // pinned arena of large / huge OS pages
+    P0.ops.push_back(mk(OP_reserve_arena, 0, B * 32 * MiB, g.below(2), 1 /*exclusive*/, d));
+  }
   for (int t = 1; t < nt; t++) P0.ops.push_back(mk(OP_spawn, t));
   for (int t = 0; t < nt; t++) {
     Program& P = p.progs[(size_t)t]; if (t) P.explicit_done = g.chance(0.5);
